@@ -355,6 +355,11 @@ pub fn main_run(args: &[String]) -> i32 {
         violations.sort_by(|a, b| (a.0.clone(), a.1).cmp(&(b.0.clone(), b.1)));
         let (batch, run, v, scn) = violations[0].clone();
         println!("violation found: batch {batch} run {run} clause {}: {}", v.clause, v.detail);
+        let nostd_stage = std::env::var("SIM_STAGE").map(|v| v == "nostd").unwrap_or(false);
+        let mut scn = scn;
+        if nostd_stage {
+            scn.knobs.push(("nostd_build".into(), 1));
+        }
         let raw = ReplayFile {
             property: prop.clone(),
             clause: v.clause.clone(),
@@ -457,9 +462,27 @@ pub fn main_run(args: &[String]) -> i32 {
         "wall_s": wall,
         "violations": total.violations,
     });
-    let edir = root().join("evidence");
-    let _ = std::fs::create_dir_all(&edir);
-    std::fs::write(edir.join(format!("{prop}.json")), serde_json::to_string_pretty(&evidence).unwrap()).expect("write evidence");
+    let mut evidence = evidence;
+    let stage_dir = root().join("sim").join("stage");
+    if std::env::var("SIM_STAGE").map(|v| v == "nostd").unwrap_or(false) {
+        // side result of the no_std + spin-lock + critical-section build: embedded by the main run
+        let _ = std::fs::create_dir_all(&stage_dir);
+        std::fs::write(stage_dir.join(format!("{prop}.nostd.json")), serde_json::to_string_pretty(&evidence).unwrap()).expect("write stage evidence");
+    } else {
+        let side = stage_dir.join(format!("{prop}.nostd.json"));
+        let stage = std::fs::read_to_string(&side).ok().and_then(|t| serde_json::from_str::<serde_json::Value>(&t).ok());
+        evidence["coverage"]["no_std_spin_lock_build_stage"] = match stage {
+            Some(st) if tier == "thorough" && st["seed"] == json!(seed) => {
+                let _ = std::fs::remove_file(&side);
+                json!({"status": "ran", "evaluations": st["coverage"]["evaluations"], "distinct_nontrivial": st["coverage"]["distinct_nontrivial"], "violations": st["violations"], "wall_s": st["wall_s"],
+                       "note": "same worlds and oracles against unimock built with --no-default-features --features critical-section,spin-lock (no Termination impl: report() is verify(); C08 only judges errors induced through clones, as the property states)"})
+            }
+            _ => json!({"status": "not part of this tier / property"}),
+        };
+        let edir = root().join("evidence");
+        let _ = std::fs::create_dir_all(&edir);
+        std::fs::write(edir.join(format!("{prop}.json")), serde_json::to_string_pretty(&evidence).unwrap()).expect("write evidence");
+    }
     println!(
         "{prop}: {} runs ({} distinct non-trivial), {} ops, {} calls, {} switches, {:.1}s, {} violation(s)",
         total.runs, distinct, total.ops, total.calls, total.switches, wall, total.violations
